@@ -1857,10 +1857,12 @@ func (s *Store) Backup(ctx context.Context, br *proto.BackupRequest, dst io.Writ
 				return err
 			}
 			defer func() {
-				err := dstGz.Close()
-				if err != nil && retErr == nil {
-					retErr = err
+				if retErr != nil {
+					// Do not terminate the compressed stream, so whatever was written
+					// before the failure cannot be mistaken for a complete backup.
+					return
 				}
+				retErr = dstGz.Close()
 			}()
 			_, err = io.Copy(dstGz, srcFD)
 		} else {
@@ -1875,10 +1877,12 @@ func (s *Store) Backup(ctx context.Context, br *proto.BackupRequest, dst io.Writ
 				return err
 			}
 			defer func() {
-				err := dstGz.Close()
-				if err != nil && retErr == nil {
-					retErr = err
+				if retErr != nil {
+					// Do not terminate the compressed stream, so whatever was written
+					// before the failure cannot be mistaken for a complete backup.
+					return
 				}
+				retErr = dstGz.Close()
 			}()
 			ww = dstGz
 		}
@@ -1911,10 +1915,12 @@ func (s *Store) Backup(ctx context.Context, br *proto.BackupRequest, dst io.Writ
 				return err
 			}
 			defer func() {
-				err := dstGz.Close()
-				if err != nil && retErr == nil {
-					retErr = err
+				if retErr != nil {
+					// Do not terminate the compressed stream, so whatever was written
+					// before the failure cannot be mistaken for a complete backup.
+					return
 				}
+				retErr = dstGz.Close()
 			}()
 			_, err = io.Copy(dstGz, tmpReadFD)
 		} else {
